@@ -3,7 +3,8 @@
    Core/CanReadProofs.v.
 
    Standing assumptions (trusted base): as for C01 where a theorem asks for [msg_ok];
-   uint is 64 bits; 1 <= D, 0 <= T; the repaired List.Struct (fx_depth) for the depth
+   uint is 64 bits; D = depth_limit c >= 1 (cfg_D = 0 selects the default 64: depth_limit_pos),
+   0 <= T; the repaired List.Struct (fx_depth) for the depth
    theorems; canRead's Load and CompareAndSwap are atomic steps (sync/atomic). *)
 From CV Require Import Core.LimitProofs Core.CanReadProofs.
 Open Scope Z_scope.
@@ -38,6 +39,14 @@ Theorem C02_traversal_bound_seq : forall c fx m ops, 0 <= cfg_T c ->
 Proof. exact traversal_bound_seq. Qed.
 Print Assumptions C02_traversal_bound_seq.
 
+(* each single API call (other than a walk): budget + handed-out size is conserved exactly,
+   or the call is a refused dereference: an error, and the budget is 0 afterwards *)
+Theorem C02_step_exact : forall c fx m st o, (forall h dcap pcap fuel, o <> OWalk h dcap pcap fuel) ->
+  rs_rl (fst (step c fx m st o)) + handed o (snd (step c fx m st o)) = rs_rl st \/
+  (rs_rl (fst (step c fx m st o)) = 0 /\ snd (step c fx m st o) = VPtr Err).
+Proof. exact step_exact. Qed.
+Print Assumptions C02_step_exact.
+
 (* the same for the generic walker (instrumented with ghost counters; [walkA_erase] shows
    the instrumentation does not change the walk) *)
 Theorem C02_walk_erase : forall c fx m dcap pcap fuel rl r,
@@ -51,18 +60,18 @@ Proof. exact walk_traversal. Qed.
 Print Assumptions C02_walk_traversal.
 
 (* depth: every access path mixing Struct.Ptr / PointerList.At / List.Struct, all D >= 1 *)
-Theorem C02_depth_bound : forall c fx m ops, 1 <= cfg_D c -> fx_depth fx = true ->
+Theorem C02_depth_bound : forall c fx m ops, 1 <= depth_limit c -> fx_depth fx = true ->
   let st := fst (run c fx m (init_state c) ops) in
   forall h, p_valid (handle st h) = true ->
-    1 <= lvl_of (run_lvl ops) h <= cfg_D c /\
+    1 <= lvl_of (run_lvl ops) h <= depth_limit c /\
     0 <= p_depth (handle st h) /\
-    p_depth (handle st h) + lvl_of (run_lvl ops) h <= cfg_D c.
+    p_depth (handle st h) + lvl_of (run_lvl ops) h <= depth_limit c.
 Proof. exact depth_bound. Qed.
 Print Assumptions C02_depth_bound.
 
-Theorem C02_depth_exhausted : forall c fx m ops o, 1 <= cfg_D c -> fx_depth fx = true ->
+Theorem C02_depth_exhausted : forall c fx m ops o, 1 <= depth_limit c -> fx_depth fx = true ->
   let st := fst (run c fx m (init_state c) ops) in
-  forall h i, (o = OSPtr h i \/ o = OPLAt h i) -> cfg_D c <= lvl_of (run_lvl ops) h ->
+  forall h i, (o = OSPtr h i \/ o = OPLAt h i) -> depth_limit c <= lvl_of (run_lvl ops) h ->
   forall q, snd (step c fx m st o) = VPtr (Ok q) -> p_valid q = false.
 Proof. exact depth_exhausted. Qed.
 Print Assumptions C02_depth_exhausted.
@@ -72,7 +81,7 @@ Print Assumptions C02_depth_exhausted.
    at most T bytes handed out -- cyclic and aliasing pointer graphs included *)
 Theorem C02_walk_bounded : forall c fx m dcap pcap fuel,
   msg_ok m -> cfg_strict c = true -> cfg_root c = true -> fx_depth fx = true -> fx_bit fx = true ->
-  1 <= cfg_D c -> 0 <= cfg_T c -> cfg_D c + 1 <= Z.of_nat fuel ->
+  1 <= depth_limit c -> 0 <= cfg_T c -> depth_limit c + 1 <= Z.of_nat fuel ->
   let T := init_rlimit c in
   let r := root c m T in
   let a := walkA c fx m dcap pcap fuel (snd r) (fst r) in
@@ -94,6 +103,10 @@ Theorem C02_walk_bounded_from : forall c fx m dcap pcap fuel rl p,
   0 <= ac_d a /\ 8 * ac_d a <= (rl - ac_rl a) + 8 * slots p.
 Proof. exact walk_bounded_from. Qed.
 Print Assumptions C02_walk_bounded_from.
+
+Theorem C02_depth_limit_pos : forall c, 0 <= cfg_D c -> 1 <= depth_limit c.
+Proof. exact depth_limit_pos. Qed.
+Print Assumptions C02_depth_limit_pos.
 
 (* concurrent readers: every interleaving of the CAS loop, any number of threads *)
 Theorem C02_traversal_bound_conc : forall T0 reqs cf, 0 <= T0 -> Forall (Forall (fun sz => 0 <= sz)) reqs ->
